@@ -312,7 +312,7 @@ def main(mod, argv=None):
         "seeds_per_hour": int(nruns / wall * 3600) if wall > 0 else 0,
         "simulated_time_covered": round(simtime, 3),
         "per_family": per_family,
-        "stats": {k: (round(v, 6) if isinstance(v, float) else v)
+        "stats": {k: (float("%.6g" % v) if isinstance(v, float) else v)
                   for k, v in sorted(stats.items())},
         "skipped": skipped,
         "known_findings_seen": {k: v[0] for k, v in known_hit.items()},
